@@ -54,10 +54,15 @@ func child(idx int, seed int64, blocks int) {
 	if ms := lib.EnvInt("VERIF_C17_DELAY_MS", 0); ms > 0 {
 		time.Sleep(time.Duration(ms) * time.Millisecond) // staggered wall-clock start (driver only)
 	}
-	w := newWorld(seed, seed*7919+13)
+	mode := os.Getenv("VERIF_C17_MODE")
+	if mode == "" {
+		mode = "plain"
+	}
+	w := newWorld(seed, seed*7919+13, mode)
 	t := trace{Child: idx, Seed: seed, Blocks: w.run(blocks),
 		Env: fmt.Sprintf("GOMAXPROCS=%s GOGC=%s delay=%sms", os.Getenv("GOMAXPROCS"), os.Getenv("GOGC"), os.Getenv("VERIF_C17_DELAY_MS"))}
 	t.Stats, t.BfCases = w.statLines(), w.bfCases
+	t.Env += fmt.Sprintf(" mode=%s restarts=%d non-committed-deliveries=%d", mode, w.restarts, w.noises)
 	b, err := json.Marshal(t)
 	lib.Must(err)
 	lib.Must(os.WriteFile(filepath.Join(lib.OutDir(), fmt.Sprintf("trace_%d.json", idx)), b, 0o644))
@@ -168,6 +173,9 @@ func main() {
 
 	gmp := []string{"1", "2", "4", "8", "3", "1", "6", "2"}
 	gogc := []string{"100", "20", "off", "50", "200", "10", "100", "off"}
+	// what the processes differ in besides the runtime settings: extra non-committed activity (Simulate/CheckTx on
+	// dropped branches) and restarts (new app object on the same database)
+	modes := []string{"plain", "noise", "restart", "noise", "restart", "plain", "noise", "restart"}
 	self, err := os.Executable()
 	lib.Must(err)
 	type proc struct {
@@ -181,11 +189,11 @@ func main() {
 		cmd := exec.Command(self)
 		env := os.Environ()
 		env = append(env, "VERIF_C17_CHILD="+strconv.Itoa(i), "VERIF_SEED="+strconv.FormatInt(seed, 10), "VERIF_C17_BLOCKS="+strconv.Itoa(blocks),
-			"GOMAXPROCS="+gmp[i%len(gmp)], "GOGC="+gogc[i%len(gogc)], "VERIF_C17_DELAY_MS="+strconv.Itoa(137*i), "VERIF_MODE=check")
+			"GOMAXPROCS="+gmp[i%len(gmp)], "GOGC="+gogc[i%len(gogc)], "VERIF_C17_DELAY_MS="+strconv.Itoa(137*i), "VERIF_MODE=check", "VERIF_C17_MODE="+modes[i%len(modes)])
 		cmd.Env = env
 		sb := &strings.Builder{}
 		cmd.Stdout, cmd.Stderr = sb, sb
-		procs = append(procs, proc{cmd, sb, fmt.Sprintf("GOMAXPROCS=%s GOGC=%s", gmp[i%len(gmp)], gogc[i%len(gogc)])})
+		procs = append(procs, proc{cmd, sb, fmt.Sprintf("GOMAXPROCS=%s GOGC=%s mode=%s", gmp[i%len(gmp)], gogc[i%len(gogc)], modes[i%len(modes)])})
 	}
 	// at most maxPar children at a time
 	for s := 0; s < len(procs); s += maxPar {
